@@ -2,6 +2,16 @@
 """Write /verif/seeded/<name>/meta.json for every seeded change from its confirmation.txt."""
 import json, os, re, glob
 NEEDS = {
+ "C05b_parallel_jacobian_block_start_index": "parallel flavour inside a rayon pool of T workers with P > ceil(P/T) and P % ceil(P/T) != 0 (e.g. P=3, T=2): the trailing block of Jacobian columns is filled with the derivative of the wrong parameter",
+ "C06b_svd_threshold_scaled_by_max_weight": "non-unit weights and a singular value of W*Phi in (eps, eps*max|w|] (user epsilon, nearly collinear basis functions): weighted problem truncates, row-scaled twin does not",
+ "C08b_statistics_unguarded_svd_nonfinite_H": "fit_with_statistics on a fit that ends with ResidualsZero at the start (all-zero data) for a model whose derivative is non-finite there: nalgebra's unguarded SVD of H panics (2 columns) or never returns (>= 3 columns)",
+ "C12b_projection_residuals_under_truncation": "a singular value <= epsilon at the solution (user epsilon, nearly collinear basis): solver residuals (I-UU^T)Y_w differ from the statistics' y_w - W Phi c",
+ "C13b_normal_matrix_par_chunks_exact_rows": "parallel feature, ambient rayon pool of T >= 2 workers, N/T >= 512 and N % T != 0: the trailing N % T rows never reach H^T H",
+ "C14b_quantile_level_in_scalar_type": "f32 models and p within a few ulps of 0 or 1: (1+p)/2 rounded in f32 shifts the quantile level by ~3e-8 (radius inf at p = 1-2^-24)",
+ "C17b_aggregate_length_check_in_eval": "two or more basis functions of one model returning wrong lengths that cancel (n+1 and n-1, 2n and 0): eval() returns Ok with values shifted across columns",
+ "C18b_all_ones_weights_become_unit": "weights of the wrong length whose entries are all exactly 1: stored as Unit, length check skipped, build() Ok",
+ "C19b_pseudo_inverse_absolute_epsilon": "a nonlinear parameter of magnitude >= 1e9 (x in nanoseconds): eigenvalues of H^T H below machine epsilon in absolute terms are truncated by pseudo_inverse(eps), the reported variance collapses",
+ "C01c_skip_update_for_nearly_equal_params": "set_params with parameters that differ from the previous ones by <= machine epsilon absolutely but a lot relatively (tiny parameters: nanosecond lifetimes in seconds; f32): recomputation skipped, stale coefficients",
  "C01b_par_solve_chunks_exact": "parallel flavour (mrhs_parallel), S >= 9 and S not a multiple of 8: the trailing S mod 8 coefficient columns stay zero",
  "C02b_best_fit_from_unweighting_residuals": "FitResult::best_fit with at least one weight exactly 0: (0-0)/0 = NaN rows",
  "C03b_nonadjacent_shared_parameter_run": "a parameter shared by basis functions that are not adjacent in basis order (f0(tau), f1(omega), f2(tau)): later nonzero derivative columns dropped",
@@ -54,5 +64,11 @@ for d in sorted(glob.glob(base + "/*/")):
         "how_run": "tools/mutant.sh seeded/<name>/patch.diff <IDs>  (git -C /repo apply; ./check <ID> quick; git -C /repo checkout -- .)",
         "files": sorted(os.listdir(d)),
     }
+    rr = os.path.join(d, "rerun_after_strengthening.txt")
+    if os.path.exists(rr):
+        det2 = [(m.group(1), int(m.group(2))) for m in (re.match(r"^(C\d+) exit=(\d+)", l) for l in open(rr).read().splitlines()) if m]
+        meta["initially_missed_by"] = [pid for pid, code in det if code != 1]
+        meta["after_strengthening"] = {pid: ("VIOLATION (exit 1)" if code == 1 else f"exit {code}") for pid, code in det2}
+        meta["detected_by"] = sorted(set(meta["detected_by"]) | {pid for pid, code in det2 if code == 1})
     json.dump(meta, open(os.path.join(d, "meta.json"), "w"), indent=1)
     print(name, "detected by", meta["detected_by"])
